@@ -51,9 +51,11 @@ Record side := {
   sd_name : str;          (* canonical text of the expression that renders the symbol name from `key` *)
   sd_value : str;         (* canonical text of the expression that renders the number from `value` *)
   sd_unless_omit : bool;  (* loop wrapped in `if not nunavut.support.omit` *)
-  sd_keyset : option str  (* symbol that carries the fingerprint of the option KEY SET
+  sd_keyset : option str; (* symbol that carries the fingerprint of the option KEY SET
                              (`options.keys() | sort(case_sensitive=true) | join(",") | to_static_assertion_value`),
                              defined by the support header / asserted by the type header; None = not present *)
+  sd_msg_exprs : list str (* canonical text of every template expression interpolated INSIDE the string literals of the
+                             assertion messages (type side; [] on the support side) *)
 }.
 
 (* A rendered symbol: the expression it was rendered with, and the key.  Two symbols are the
@@ -216,7 +218,20 @@ Definition iter_expr : str :=   (* options.items() *)
 Definition sav_expr : str :=    (* value | to_static_assertion_value *)
   [118; 97; 108; 117; 101; 32; 124; 32; 116; 111; 95; 115; 116; 97; 116; 105; 99; 95; 97; 115; 115; 101; 114; 116; 105; 111; 110; 95; 118; 97; 108; 117; 101].
 
+(* Expressions that may be interpolated into a C/C++ string literal without being able to end it or to
+   start an escape sequence: the DSDL source file name / path and the option KEY (identifiers).  An option
+   VALUE is not literal-safe: documented values contain double quotes (quoted include paths) and free text
+   may contain backslashes. *)
+Definition safe_msg_exprs : list str :=
+  [ [84; 46; 115; 111; 117; 114; 99; 101; 95; 102; 105; 108; 101; 95; 112; 97; 116; 104; 46; 97; 115; 95; 112; 111; 115; 105; 120; 40; 41; 32; 105; 102; 32; 110; 117; 110; 97; 118; 117; 116; 46; 101; 109; 98; 101; 100; 95; 97; 117; 100; 105; 116; 105; 110; 103; 95; 105; 110; 102; 111; 32; 101; 108; 115; 101; 32; 84; 46; 115; 111; 117; 114; 99; 101; 95; 102; 105; 108; 101; 95; 112; 97; 116; 104; 46; 110; 97; 109; 101] (* T.source_file_path.as_posix() if nunavut.embed_auditing_info else T.source_file_path.name *);
+    [84; 46; 115; 111; 117; 114; 99; 101; 95; 102; 105; 108; 101; 95; 112; 97; 116; 104; 46; 110; 97; 109; 101] (* T.source_file_path.name *);
+    [84; 46; 115; 111; 117; 114; 99; 101; 95; 102; 105; 108; 101; 95; 112; 97; 116; 104; 46; 97; 115; 95; 112; 111; 115; 105; 120; 40; 41] (* T.source_file_path.as_posix() *);
+    [107; 101; 121] (* key *);
+    [107; 101; 121; 32; 124; 32; 105; 100] (* key | id *) ].
+Definition msg_literal_safe (sd : side) : bool := forallb (fun e => str_in e safe_msg_exprs) (sd_msg_exprs sd).
+
 Definition sides_agree (sup typ : side) : bool :=
+  msg_literal_safe typ && msg_literal_safe sup &&
   str_eqb (sd_iter typ) iter_expr && str_eqb (sd_value typ) sav_expr &&
   str_eqb (sd_iter sup) (sd_iter typ) && str_eqb (sd_name sup) (sd_name typ) && str_eqb (sd_value sup) (sd_value typ)
   && match sd_skip sup, sd_skip typ with [], [] => true | _, _ => false end.
